@@ -45,6 +45,24 @@ def huge_dimension(text):
     return False
 
 
+def recursive_type(text):
+    """True if the struct/union declarations of the source reference each other in a cycle
+    (member types naming another declared struct/union)."""
+    decls = {}
+    for m in re.finditer(r"\b(?:struct|union)\s+(\w+)\s*\{([^}]*)\}", text):
+        decls[m.group(1)] = m.group(2)
+    graph = {n: {t for t in re.findall(r":\s*(\w+)", body) if t in decls} for n, body in decls.items()}
+
+    def reach(a, seen):
+        for b in graph.get(a, ()):
+            if b in seen:
+                return True
+            if reach(b, seen | {b}):
+                return True
+        return False
+    return any(reach(n, {n}) for n in graph)
+
+
 def run(ctx):
     prop_file = f"{LEAN}/VerylModel/Props/C11.lean"
     ok = True
@@ -94,6 +112,12 @@ def run(ctx):
             # signature verified on the input: it declares a vector/array dimension of >= 10^6
             # elements (or a product >= 10^9); elaboration then allocates per-bit state
             key = "elaboration:huge-vector-dimension:no-size-limit"
+        elif r.startswith("slow") and re.search(r"\brepeat\s+[0-9_]{6,}", text):
+            # signature verified on the input: a concatenation replicated >= 10^5 times
+            key = "elaboration:huge-repeat-count:no-size-limit"
+        elif r.startswith("abort") and recursive_type(text):
+            # signature verified on the input: struct/union declarations contain each other
+            key = "elaboration:recursive-struct-union-type:stack-overflow"
         else:
             key = "slow-or-abort:" + hashlib.sha256(text.encode()).hexdigest()[:12]
         if key in seen:
